@@ -134,14 +134,37 @@ func (b *baseExecutor) traversalArgs(node ast.Node, argsIndex *[]int32) {
 		break
 	case *ast.BetweenExpr:
 		expr := node.(*ast.BetweenExpr)
+		b.traversalArgs(expr.Expr, argsIndex)
 		b.traversalArgs(expr.Left, argsIndex)
 		b.traversalArgs(expr.Right, argsIndex)
 		break
 	case *ast.PatternInExpr:
-		exprs := node.(*ast.PatternInExpr).List
-		for i := 0; i < len(exprs); i++ {
-			b.traversalArgs(exprs[i], argsIndex)
+		expr := node.(*ast.PatternInExpr)
+		b.traversalArgs(expr.Expr, argsIndex)
+		for i := 0; i < len(expr.List); i++ {
+			b.traversalArgs(expr.List[i], argsIndex)
 		}
+		break
+	case *ast.ParenthesesExpr:
+		expr := node.(*ast.ParenthesesExpr)
+		b.traversalArgs(expr.Expr, argsIndex)
+		break
+	case *ast.UnaryOperationExpr:
+		expr := node.(*ast.UnaryOperationExpr)
+		b.traversalArgs(expr.V, argsIndex)
+		break
+	case *ast.IsNullExpr:
+		expr := node.(*ast.IsNullExpr)
+		b.traversalArgs(expr.Expr, argsIndex)
+		break
+	case *ast.PatternLikeExpr:
+		expr := node.(*ast.PatternLikeExpr)
+		b.traversalArgs(expr.Expr, argsIndex)
+		b.traversalArgs(expr.Pattern, argsIndex)
+		break
+	case *ast.ByItem:
+		expr := node.(*ast.ByItem)
+		b.traversalArgs(expr.Expr, argsIndex)
 		break
 	case *test_driver.ParamMarkerExpr:
 		*argsIndex = append(*argsIndex, int32(node.(*test_driver.ParamMarkerExpr).Order))
